@@ -17,6 +17,7 @@ type SolverCfg struct {
 	FirstMS   int64 // timeout of the first solver
 	RaceMS    int64 // timeout of the fallback race
 	Second    bool  // thorough: re-discharge by a second, different solver
+	CoverMS   int64
 	Workers   int
 	Seed      int
 }
@@ -114,17 +115,28 @@ func (e *Engine) discharge(o *Obligation, cfg *SolverCfg) {
 		o.Status, o.Solver = "unsat", "trivial"
 		return
 	}
-	first := runSolver(context.Background(), "z3-new", fz, cfg.FirstMS)
+	fms := cfg.FirstMS
 	if o.Cover {
-		// vacuity guard: only a definite unsat is a failure
+		fms = cfg.CoverMS
+	}
+	first := runSolver(context.Background(), "z3-new", fz, fms)
+	if o.Cover {
+		// vacuity guard: a definite unsat from ANY solver is a failure; sat from any is reassuring
 		o.Status, o.Solver = first.status, first.name
 		if first.status != "sat" && first.status != "unsat" {
 			fc := base + ".cvc5.smt2"
 			os.WriteFile(fc, []byte(e.query(o, false, true)), 0o644)
-			r2 := runSolver(context.Background(), "z3", fz, cfg.FirstMS)
-			if r2.status == "sat" || r2.status == "unsat" {
-				o.Status, o.Solver = r2.status, r2.name
+			ctx, cancel := context.WithCancel(context.Background())
+			ch := make(chan solverRun, 2)
+			go func() { ch <- runSolver(ctx, "z3", fz, cfg.CoverMS) }()
+			go func() { ch <- runSolver(ctx, "cvc5", fc, cfg.CoverMS) }()
+			for i := 0; i < 2; i++ {
+				r := <-ch
+				if r.status == "unsat" || (r.status == "sat" && o.Status != "unsat") {
+					o.Status, o.Solver = r.status, r.name
+				}
 			}
+			cancel()
 		}
 		return
 	}
